@@ -52,6 +52,17 @@ def enum_check(text, collect_errors, M, case, accepted):
     if envs != want:
         M.violation("C14.enum", {"what": "rejected source: envelopes are not exactly one parseError per error (uri, location, message)",
                                  "got": short(envs, 300), "want": short(want, 300)}, case)
+    # whatever is switched off for printing, a rejected source yields its parseError envelopes and nothing else
+    opts = [(a, b, c) for a in (True, False) for b in (True, False) for c in (True, False)][M.counters.get("enum_compared", 0) % 8]
+    st3, envs3, opened3, _ = observe.enum_observed(text, uri="features/t.feature", options=opts)
+    M.count("enum_compared")
+    M.count("enum_option_combinations_checked")
+    if st3 != "ok":
+        M.violation("C14.enum", {"what": "exception escaped GherkinEvents.enum", "options": opts, **envs3}, case,
+                    mechanism=observe.f1_from_opened(text, opened3))
+    elif envs3 != want:
+        M.violation("C14.enum", {"what": "rejected source under print options %s: envelopes are not exactly one parseError per error" % (opts,),
+                                 "got": short(envs3, 300), "want": short(want, 300)}, case)
     # the same source through a stream whose parser stops at the first error: exactly the first error
     st2, envs2, opened2, _ = observe.enum_observed(text, uri="features/t.feature", stop=True)
     M.count("enum_compared")
